@@ -1015,6 +1015,8 @@ type vCrit struct {
 	nelem int
 	forms []vForm // bounds with variable arithmetic: sum coef*var + cst compared with 0
 	hvars []vHostVar
+	order [][]int // payload elements of the data filters in the order of the text (first collect only)
+	frozen bool
 }
 
 // a host filter that compares the address of its own stream with a host VARIABLE under the masks m4 / m6
@@ -1193,6 +1195,9 @@ func (c *vCrit) collect(e *vExpr) {
 			if el+1 > c.nelem {
 				c.nelem = el + 1
 			}
+		}
+		if !c.frozen && len(a.Elems) != 0 {
+			c.order = append(c.order, append([]int(nil), a.Elems...))
 		}
 	}
 }
@@ -1435,6 +1440,36 @@ func (c *vCrit) eventSeqs(rng *rand.Rand, n int) [][]int {
 		return res
 	}
 	res = append(res, []int{})
+	// guided: the payload filters in the order of the text, with one of them (a negated one, say) left out, and the
+	// prefixes; long sequences are rarely satisfied by random event orders
+	if len(c.order) != 0 && len(c.order) <= 12 {
+		base := make([]int, len(c.order))
+		for i, els := range c.order {
+			base[i] = els[rng.Intn(len(els))]
+		}
+		guided := [][]int{base}
+		for i := range base {
+			guided = append(guided, append(append([]int{}, base[:i]...), base[i+1:]...))
+		}
+		for i := 1; i < len(base); i++ {
+			guided = append(guided, append([]int{}, base[:i]...))
+		}
+		for i := range base {
+			for j := i + 1; j < len(base); j++ {
+				d := []int{}
+				for t, e := range base {
+					if t != i && t != j {
+						d = append(d, e)
+					}
+				}
+				guided = append(guided, d)
+			}
+		}
+		if len(guided) > n/2 {
+			guided = guided[:n/2]
+		}
+		res = append(res, guided...)
+	}
 	for len(res) < n {
 		l := 1 + rng.Intn(k+2)
 		s := make([]int, l)
@@ -1720,6 +1755,7 @@ func vRunCaseSpec(i int, text string, spec *vExpr, nvals int, seed int64, hang t
 	res.WfD = stripped == nil || vWf(stripped, true)
 	crit := &vCrit{subs: []string{""}}
 	crit.collect(oracle)
+	crit.frozen = true
 	if spec != nil {
 		crit.collect(stripped)
 	}
